@@ -113,6 +113,7 @@ def L(p):
     t['apply_static_mods'] = lambda W: p.apply_static_mods(W[A], W['rules'], W['nrule'])
     t['apply_static_mods-annotation'] = lambda W: p.apply_static_mods(W[A], W['rules'], None, None, 'append', 'annotation')
     t['apply_variable_mods'] = lambda W: p.apply_variable_mods(W[A], W['vrules'], 1, W['nrule'])
+    t['apply_variable_mods-max0-annotation'] = lambda W: p.apply_variable_mods(W[A], W['vrules'], 0, return_type='annotation')
     t['apply_variable_mods-annotation'] = lambda W: p.apply_variable_mods(W[A], W['vrules'], 1, return_type='annotation')
     # ---- digestion
     t['digest'] = lambda W: list(p.digest(W[A], 'trypsin/P'))
